@@ -6,8 +6,8 @@ import json, os, re, subprocess, sys
 here = os.path.dirname(os.path.dirname(os.path.abspath(__file__)))
 pid = sys.argv[1]
 txt = open(os.path.join(here, "notes", f"{pid}.md")).read()
-i = txt.lower().rfind("manifest")
-sec = txt[i:] if i >= 0 else txt
+hs = [m.start() for m in re.finditer(r"^#+ .*manifest.*$", txt, re.I | re.M)]
+sec = txt[hs[-1]:] if hs else txt
 out = {"property_id": pid}
 keys = ["technique", "text", "note"]
 for k in keys:
